@@ -409,6 +409,8 @@ def run_one(ctl: explorer.Ctl, cfg: Dict[str, Any]) -> Dict[str, Any]:
             det = {"cut": where_cut()}
             if any(n.split("/")[0].endswith("-null") for n in names) and all('null' in m or '"END"' in m for m in missing):
                 det["line"] = "message-with-a-null-valued-member"
+            if any(n.split("/")[0] in {x for x, _ in LINES_NOT_UTF8} for n in names):
+                det["line"] = "near-a-line-that-is-not-utf8"
         elif not missing and not extra:
             cls = "reordered-or-duplicated"
             det = {}
